@@ -24,6 +24,34 @@ CHECKS = {
                 technique="TLC on SpkiTable.tla (set semantics, both lookups, callback mirror, reload protocol) + trace validation of the real spki_table against SpkiTableTrace.tla",
                 text="TLC checks the key-table contract exhaustively over a 9-entry universe incl. the copy/swap/notify-diff protocol; the real table is bound by replaying TLC-generated histories with a full lookup sweep after every step and by seeded histories whose sizes walk across the linear-hash resize steps with AS numbers colliding in the hash, every lookup result (as a bag) and every callback bag recomputed by TLC.",
                 note="bounded constants on the model side; finite seeded samples on the code side; NDEBUG+ASan build; trusts TLC and the harness's logging"),
+    "C03": dict(engine="fsm", cat="model_checking", ref="5/C03",
+                technique='TLC on MCRtrSocket (envelope of rtr.c/packets.c at seam granularity) + trace validation of the real FSM thread against RtrSocketTrace.tla, monitor OK_C03',
+                text="The envelope's End-of-Data action has exactly three outcomes (applied in order / untouched / purged+reset) and TLC checks the ghost properties over every conversation of the small alphabet; the real rtr_fsm_start thread is run against a scripted cache (offending PDU at every position, repeated records, transport faults at every frame, mid-frame cuts, stops mid-apply) and TLC recomputes, from the logged frames, this socket's records at every observation point (reconnect, next query, sleep, stop), the other source's records and the next query.",
+                note="small alphabets on the model side (cfg header); finite seeded conversations on the code side; the simulated cache closes the connection after an Error Report; NDEBUG+ASan build, virtual clock via --wrap; trusts TLC and the harness's PDU codec/logging"),
+    "C05": dict(engine="fsm", cat="model_checking", ref="5/C05",
+                technique='ghost ack variable in MCRtrSocket (invariant I_C05) + trace validation of every query the real client writes to the transport (monitor OK_C05)',
+                text="TLC checks on the envelope that every query equals what the last End of Data dictates (ghost ack) across failures, Cache Reset, no-data, expiry and stop/start; every query the real client sends in seeded conversations (incl. serial wrap-around values, session changes, foreign-session Cache Response / End of Data, stop issued while a response is being applied) is compared by TLC with the envelope's prediction.",
+                note="small alphabets on the model side (cfg header); finite seeded conversations on the code side; the simulated cache closes the connection after an Error Report; NDEBUG+ASan build, virtual clock via --wrap; trusts TLC and the harness's PDU codec/logging"),
+    "C07": dict(engine="fsm", cat="model_checking", ref="5/C07",
+                technique="expiry/stop rules of RtrSocket.tla driven by the time of the last End of Data (not the implementation's timestamp) + trace validation at every transport open and after rtr_stop (monitor OK_C07)",
+                text='The specification purges by its own ghost time of the last successful synchronisation, so a timestamp the implementation loses (failed reload) is caught; table contents at each open(), the type of the first query after an expiry and contents after rtr_stop are checked by TLC on traces with long outages (virtual clock), reloads interrupted at every frame, all interval settings and modes.',
+                note="small alphabets on the model side (cfg header); finite seeded conversations on the code side; the simulated cache closes the connection after an Error Report; NDEBUG+ASan build, virtual clock via --wrap; trusts TLC and the harness's PDU codec/logging"),
+    "C08": dict(engine="fsm", cat="model_checking", ref="5/C08",
+                technique='progress monitors of RtrSocketTrace.tla (sleep discipline, time bound after the cache turns good, ESTABLISHED only after a completed sync) + harness watchdog for zero-time loops',
+                text='After a seeded run of faults the scripted cache answers correctly (mark event with the target data set); TLC checks on the trace that the client reaches ESTABLISHED with exactly that data within refresh+expire+4*retry+240 s of virtual time, that every error path sleeps the retry interval, and the harness reports a hang when 5000 seam calls pass without time or input advancing.',
+                note="small alphabets on the model side (cfg header); finite seeded conversations on the code side; the simulated cache closes the connection after an Error Report; NDEBUG+ASan build, virtual clock via --wrap; trusts TLC and the harness's PDU codec/logging"),
+    "C13": dict(engine="fsm", cat="model_checking", ref="5/C13",
+                technique='version rules in RtrSocket.tla (Class/NewVer, downgrade actions) + P_C13 on MCRtrSocket + trace validation of the version byte of every PDU sent and of every refusal (monitor OK_C13)',
+                text='TLC checks ver never increases on the envelope; on traces every sent PDU must carry the negotiated version, a differing version on any other PDU must be answered by an Unexpected-Protocol-Version report with nothing applied, End of Data formats are tied to their version, and the three downgrade triggers (first PDU, error code 4 => immediate reconnect, hang-up before any answer) are the only ones.',
+                note="small alphabets on the model side (cfg header); finite seeded conversations on the code side; the simulated cache closes the connection after an Error Report; NDEBUG+ASan build, virtual clock via --wrap; trusts TLC and the harness's PDU codec/logging"),
+    "C14": dict(engine="fsm", cat="model_checking", ref="5/C14",
+                technique='owed-report bookkeeping in RtrSocket.tla + byte-level parsing of everything the client writes (harness) + trace validation of every Error Report (code, byte-exact encapsulated prefix, lengths) (monitor OK_C14)',
+                text='The harness splits the concatenated bytes written on a connection into PDUs by their length fields under scripted partial writes; TLC requires, for every violation class the cache script produces, exactly one Error Report with an admissible code, an encapsulated PDU that is a byte-exact prefix of the offending frame as sent, consistent lengths, size <= 3248 and the negotiated version, and none in reply to an Error Report.',
+                note="small alphabets on the model side (cfg header); finite seeded conversations on the code side; the simulated cache closes the connection after an Error Report; NDEBUG+ASan build, virtual clock via --wrap; trusts TLC and the harness's PDU codec/logging"),
+    "C17": dict(engine="fsm", cat="model_checking", ref="5/C17",
+                technique="ApplyIv/NewIv in RtrSocket.tla + I_C17 on MCRtrSocket + trace validation of the socket's intervals after every event, of rtr_init's verdict and of every receive timeout while established (monitor OK_C17)",
+                text="Boundary values (0, lo-1, lo, lo+1, hi-1, hi, hi+1, 2^31, 2^32-1) for all three intervals in End of Data under all four modes and initial settings; TLC recomputes the socket's intervals after every End of Data, checks v0 never changes them, that rtr_init rejects out-of-range settings, and that the timeout handed to the transport while established is max(0, last sync + refresh - now) followed at once by a Serial Query.",
+                note="small alphabets on the model side (cfg header); finite seeded conversations on the code side; the simulated cache closes the connection after an Error Report; NDEBUG+ASan build, virtual clock via --wrap; trusts TLC and the harness's PDU codec/logging"),
 }
 
 NA_REASON = "check not built yet in this round (planned: see DESIGN.md section 5); no claim is made"
